@@ -5,11 +5,11 @@ import json, os, subprocess, sys
 RULE = ("for seeded, deterministically generated languages (constraint alternatives as lists), expressions and workflows: the vocabulary (with and without "
         "closure; labels and printed signatures on), expression graphs and workflow graphs (random with_* switches, labels on) are generated in fresh "
         "interpreters with PYTHONHASHSEED 0, 1, 2, 3 and 'random', and once more after unrelated graphs and junk allocations from the same language with the "
-        "tool applications listed in reverse; each graph is canonicalised (rdflib to_canonical_graph; running numbers of printed variable names removed, nothing else) "
-        "and digests are compared across all runs; non-trivial = the graph has at least 10 triples; distinct by graph identity")
+        "tool applications listed in reverse; of each graph (running numbers of printed variable names removed, nothing else) an isomorphism-invariant digest is taken (harness/iso.py, colour refinement) "
+        "and compared across all runs, equal digests are confirmed by an exact isomorphism test; non-trivial = the graph has at least 10 triples; distinct by graph identity")
 ASSUMPTIONS = ["hash-seed and allocation-history dependence is runtime behaviour the Lean model cannot exhibit: the theorems cover order-independence of the "
                "model's set-iterating steps (canon work list, emission order), the runtime part is exercised here"]
-TRUSTED = ["harness/workers/c19_worker.py", "rdflib.compare.to_canonical_graph"]
+TRUSTED = ["harness/workers/c19_worker.py", "harness/iso.py (invariant digest, exact isomorphism)"]
 
 HERE = os.path.dirname(os.path.dirname(os.path.abspath(__file__)))
 
@@ -23,6 +23,12 @@ def worker(seed, nlang, hashseed, unrelated):
     if p.returncode != 0:
         raise RuntimeError("worker failed: " + p.stderr[-800:])
     return json.loads(p.stdout.strip().splitlines()[-1])
+
+
+def exact_same(a, b):
+    """the digest is isomorphism-invariant but not complete: confirm by an exact isomorphism test (harness/iso.py)"""
+    import iso
+    return iso.isomorphic_triples([tuple(t) for t in a.get("triples", [])], [tuple(t) for t in b.get("triples", [])])
 
 
 def run(ctx):
@@ -45,6 +51,8 @@ def run(ctx):
             digests = {}
             for (hs, unrel), r in zip(configs, runs):
                 d = r[i]["digest"] if i < len(r) and r[i]["what"] == item["what"] else "missing/" + (r[i]["what"] if i < len(r) else "-")
+                if d == item["digest"] and r is not base and not d.startswith("E:") and not exact_same(item, r[i]):
+                    d += "!not-isomorphic"     # equal colour-refinement digests, yet no isomorphism exists
                 digests[f"hashseed={hs}{',after-unrelated' if unrel else ''}"] = d
             # the literal text with the running numbers removed must agree in every run, printed order included
             same_history = {v for k, v in digests.items() if "after" not in k}
